@@ -61,17 +61,21 @@ def close(g, w):
         return False
 
 
-def texts():
+def texts(thorough=False):
     out = []
     mags = ('1', '1.5', '.5', '-2', '+3', '0', '10', '0.0000000001',
             '1.0000000000001')
+    if thorough:
+        mags += ('-0', '+.25', '007', '1023', '1024', '1025', '999.999',
+                 '0.125', '12345678901234567890', '3.', '1e2', '1,5', ' 1',
+                 '1 ', '-', '+', '.', '٣', '1.5.5', '-+1', '0x1')
     prefixes = ('', 'k', 'K', 'ki', 'Ki', 'M', 'Mi', 'G', 'Gi', 'T', 'Ti',
                 'P', 'Pi', 'E', 'Ei', 'Z', 'Zi', 'Y', 'Yi', 'R', 'Ri', 'Q',
                 'Qi', 'X', 'Xi', 'm', 'kI')
     for p in prefixes:
         for u in ('b', 'bit', 'B'):
-            for m in (mags if p in ('', 'K', 'Ki', 'k', 'ki', 'M') else
-                      ('1', '1.5')):
+            for m in (mags if thorough or p in ('', 'K', 'Ki', 'k', 'ki',
+                                                'M') else ('1', '1.5')):
                 out.append(m + p + u)
     out += ['', 'B', '1', '1 B', '1e3B', '1KBB', 'KB', '1.KB', '1..5KB',
             '--1KB', '1Kbits', '1KiB ', ' 1KiB', '1kb\n', '1BK', '1iB',
@@ -178,7 +182,7 @@ def _table(ctx):
         interp.types[ri] = 'bool'
         interp.call_raises['float'] = ['ValueError']
     outcomes, _i = extract(world, thunk, setup=setup, max_paths=4096)
-    grid = texts()
+    grid = texts(ctx.thorough)
 
     def oracle(v):
         return ref_string_to_bytes(v['text'], v['unit_system'],
